@@ -50,6 +50,9 @@ class DeferredRenderTask(NamedTuple):
     fname: str
     root_config: FluffConfig
     fix: bool
+    # User rule classes registered on the main process linter, so that the
+    # worker applies the same rule set as a sequential run would.
+    user_rules: tuple[type, ...] = ()
 
 
 class ParsedVariant(NamedTuple):
